@@ -109,6 +109,17 @@ def run(repo, res):
                               'the extractor raises on %s shape `%s`: %s -> lint/assist/location die with it'
                               % (cls, s.variant, ps.raised))
     res.ob('C08-R2', 'extractor shapes', not seen, sample='%d shape paths interpreted, %d raising' % (nshapes, len(seen)))
+    hyg = R.binding_hygiene_records(repo)
+    seen_ns = set()
+    for cls, variant, ident, line in hyg['nonstr']:
+        k = '%s registers a binding whose name is not a string' % R.method_name(repo, cls)
+        if k in seen_ns:
+            continue
+        seen_ns.add(k)
+        res.check('C08-R2', k, False, line[0], line[1],
+                  'on %s shape `%s` the extractor registers a binding named %s: lint (`name.name.startswith`), assist (sorting the '
+                  'visible names) and the joins raise on it later' % (cls, variant, ident))
+    res.ob('C08-R2', 'registered names are strings', not hyg['nonstr'], sample='%d shape paths: every registered binding is named by a string' % hyg['n'])
     res.count('shape_paths', nshapes, floor=900)
     # scope attributes read on the current scope must exist on every scope kind
     attrs = {}
